@@ -106,6 +106,7 @@ type c15Step struct {
 	Active  bool      `json:"active"`  // rec: desired state during this step
 	Deleted bool      `json:"deleted"` // rec: the revision is deleted (client Delete) before this step
 	Par     bool      `json:"par"`     // rec: runs concurrently with the next step (a rec step of another revision)
+	Nest    string    `json:"nest"`    // with par: "" free-running goroutines | upd | est: this reconcile is parked inside its metadata Update / inside Establish while the next step's reconcile runs from start to end (a deterministic interleaving at API-call granularity)
 	F       c15Faults `json:"f"`       // sig steps use getE and stat only
 	O       c15Oracle `json:"o"`
 	SigCfg  string    `json:"sigCfg"` // sig: "" (the real ImageConfigStore over the ImageConfigs of the world) | err (listing ImageConfigs fails)
@@ -992,7 +993,7 @@ func (w *c15World) ctlFor(ptype string) *c15Ctl {
 			c.fetch.imgs[rw.refName] = rw
 		}
 	}
-	c.est = &c15Establisher{w: w, gk: gk, fail: map[string]string{}, calls: map[string]*c15EstCall{}}
+	c.est = &c15Establisher{w: w, gk: gk, fail: map[string]string{}, calls: map[string]*c15EstCall{}, parks: map[string]*c15Park{}}
 	c.val = &c15Validator{w: w}
 	flags := &feature.Flags{}
 	if w.scn.Feature {
@@ -1083,6 +1084,7 @@ type c15Establisher struct {
 	gk    schema.GroupKind
 	fail  map[string]string // revision name -> error class ("plain" for a plain error)
 	calls map[string]*c15EstCall
+	parks map[string]*c15Park
 }
 
 func (e *c15Establisher) arm(rev, class string) {
@@ -1132,7 +1134,9 @@ func (e *c15Establisher) Establish(_ context.Context, objs []runtime.Object, par
 	class := e.fail[parent.GetName()]
 	call.failed = class != ""
 	e.calls[parent.GetName()] = call
+	park := e.parks[parent.GetName()]
 	e.mu.Unlock()
+	park.here("est")
 	refs := make([]xpv1.TypedReference, 0, len(objs))
 	for _, o := range objs {
 		gvk := o.GetObjectKind().GroupVersionKind()
@@ -1232,7 +1236,28 @@ func c15Err(class, n string) error {
 }
 
 // c15ClPlan: outcomes of the API calls one reconcile makes on its revision.
+// c15Park parks a reconcile's goroutine at an API call until the scheduler releases it.
+type c15Park struct {
+	at      string // upd | est
+	parked  chan struct{}
+	release chan struct{}
+	once    sync.Once
+}
+
+func (p *c15Park) here(at string) {
+	if p == nil || p.at != at {
+		return
+	}
+	first := false
+	p.once.Do(func() { first = true })
+	if first {
+		close(p.parked)
+		<-p.release
+	}
+}
+
 type c15ClPlan struct {
+	park    *c15Park
 	getE    string
 	upd     string
 	fin     string
@@ -1310,6 +1335,10 @@ func (c *c15Client) Get(ctx context.Context, key client.ObjectKey, obj client.Ob
 
 func (c *c15Client) Update(ctx context.Context, obj client.Object, opts ...client.UpdateOption) error {
 	if p := c.planFor(obj); p != nil {
+		if c.role == "main" {
+			// the request is on its way to the API server: meanwhile another worker runs
+			p.park.here("upd")
+		}
 		class := p.upd
 		if c.role == "fin" {
 			class = p.fin
@@ -1595,11 +1624,37 @@ func (w *c15World) runRec(s *c15Step) (c15StepObs, []Mon) {
 func (w *c15World) runRecPair(s1, s2 *c15Step) (c15StepObs, []Mon, c15StepObs, []Mon) {
 	p1 := w.prepRec(s1)
 	p2 := w.prepRec(s2)
-	var wg sync.WaitGroup
-	wg.Add(2)
-	go func() { defer wg.Done(); p1.exec() }()
-	go func() { defer wg.Done(); p2.exec() }()
-	wg.Wait()
+	if s1.Nest == "upd" || s1.Nest == "est" {
+		// deterministic interleaving: the first reconcile is parked inside its metadata Update /
+		// inside Establish, the second one runs from start to end, then the first one goes on.
+		// (If the first one returns before it gets there, the second one simply runs after it.)
+		park := &c15Park{at: s1.Nest, parked: make(chan struct{}), release: make(chan struct{})}
+		if pl := p1.ctl.plans.get(p1.rw.rev.Name); pl != nil {
+			pl.park = park
+		}
+		p1.ctl.est.mu.Lock()
+		p1.ctl.est.parks[p1.rw.rev.Name] = park
+		p1.ctl.est.mu.Unlock()
+		done := make(chan struct{})
+		go func() { defer close(done); p1.exec() }()
+		select {
+		case <-park.parked:
+			p2.exec()
+			close(park.release)
+			<-done
+		case <-done:
+			p2.exec()
+		}
+		p1.ctl.est.mu.Lock()
+		delete(p1.ctl.est.parks, p1.rw.rev.Name)
+		p1.ctl.est.mu.Unlock()
+	} else {
+		var wg sync.WaitGroup
+		wg.Add(2)
+		go func() { defer wg.Done(); p1.exec() }()
+		go func() { defer wg.Done(); p2.exec() }()
+		wg.Wait()
+	}
 	o1, m1 := w.finishRec(p1)
 	o2, m2 := w.finishRec(p2)
 	// (finishRec runs after both reconciles: both observations show the world after the pair)
